@@ -2,6 +2,7 @@ import NixModel.Index
 import NixModel.NDArray
 import NixModel.Spec.C01
 import NixModel.Dump
+import NixModel.Drive.FileState
 namespace Nix.Drive
 
 /-- the axis a trace is currently talking about (index family) -/
@@ -34,5 +35,6 @@ structure DState where
   axis : AxisDesc := .none
   arr : Option ArrSt := none
   store : StoreSt := {}
+  fileFam : FileFamSt := {}       -- modes / crash / ids families (C09 C11 C12)
 
 end Nix.Drive
